@@ -9,7 +9,7 @@ CONSTANTS Browsers, MaxAge   \* MaxAge: ticks a state value stays valid (two min
 \* what the identity provider does for one login attempt
 \* manyclaims / laterclaims: verified ID tokens that carry several of the claims a user name may be taken from (all four,
 \* or only the later ones of the documented order) with different values
-Logins == {"ok", "refuse", "noidtoken", "badsig", "wrongiss", "subissuer", "issuerslash", "wrongaud", "expired", "expired-just", "nousername", "manyclaims", "laterclaims"}
+Logins == {"ok", "refuse", "noidtoken", "badsig", "wrongiss", "subissuer", "issuerslash", "wrongaud", "noaud", "emptyaud", "expired", "expired-just", "nousername", "manyclaims", "laterclaims"}
 LoginVerifies(lg) == lg \in {"ok", "manyclaims", "laterclaims"}
 
 VARIABLES sess,    \* browser -> [cookie: "none" | "own" | "tampered" | "foreign", authed, user]
